@@ -1240,7 +1240,7 @@ func (m c20) Run(c *core.Ctx) {
 		}
 	}
 
-	// ---- seeded random part. Per batch: quick 6250 values (x16 = 100k), thorough 62500 (x32 = 2M).
+	// ---- seeded random part (per batch: 6250 values x scale).
 	scale := c.Pick(1, 100)
 	nUgo, nGo, nReg, nUns, nTab := 2400*scale, 2400*scale, 600*scale, 500*scale, 350*scale
 	type kindRun struct {
